@@ -31,6 +31,19 @@ def dispatch (env : Env) (cfg : String) : Except String Backend :=
   else if isNumpy cfg then .ok .numpy
   else .error "runtime_error"
 
+/-- which code path `FresnelPropagator.propagate` takes for the convolution with the propagator kernel -/
+inductive Route where
+  | cachedFftw
+  | dispatched (b : Backend)
+  deriving DecidableEq, Repr
+
+/-- `FresnelPropagator.propagate`: NumPy arrays under `fft = fftw` go to `CachedFFTWConvolution` (which checks that pyfftw is
+present), everything else to `fft2_convolve`, i.e. through `_fft_dispatch` -/
+def propagateRoute (env : Env) (cfg : String) (isNumpyArray : Bool) : Except String Route :=
+  if propagatorUsesCachedFftw cfg isNumpyArray then
+    (if env.hasFftw then .ok .cachedFftw else .error "runtime_error")
+  else (dispatch env cfg).map .dispatched
+
 inductive DType where
   | float32 | float64 | complex64 | complex128
   deriving DecidableEq, Repr
